@@ -9,7 +9,7 @@ demo = os.path.join(d, "demo.c")
 sh = os.path.join(d, "demo.sh")
 def demo_cmd():
     if os.path.exists(os.path.join(d, "run_demo.sh")):
-        return "bash %s" % os.path.join(d, "run_demo.sh")
+        return "bash %s %s" % (os.path.join(d, "run_demo.sh"), wt)
     src = open(demo).read() if os.path.exists(demo) else ""
     lines = src.split("\n")
     for i, l in enumerate(lines):
